@@ -5,8 +5,8 @@ CONSTANTS
   MergeTag = 2
   Reps = {1, 2, 3}
   Txns = {1, 2}
-  MaxCmds = 7
-  MaxSteps = 14
+  MaxCmds = 8
+  MaxSteps = 16
   Kinds = {"b0", "b1", "fin"}
   Ops = {"n", "s", "d", "x"}
   MaxBatch = 2
@@ -14,6 +14,9 @@ CONSTANTS
   AllowOrphan = TRUE
   AllowPoison = TRUE
   AllowFail = TRUE
+  AllowNoop = FALSE
+  BootAll = TRUE
+  ActWeight = 30
 INVARIANTS Frontier Convergence LazyMergeEquiv NoParallelFinalizeCommitted HelloSound Emit
 CONSTRAINT NotDone
 CHECK_DEADLOCK FALSE
